@@ -16,11 +16,14 @@ Chain ==
 \* item of height 1 (t=10): at H=2 fresh, at H=3 expired by both
 \* item of height 2 (t=20): at H=3 over the duration only, at H=4 both
 \* item of height 3 (t=60): at H=5 over the block limit only, at H=6 both
+\* light-client-attack items need the commits of their heights, which the block store has
+\* one block later: lunatic (common 3, conflicting 4) is verifiable at H=5 only,
+\* equivocation at 3 at H=4 and H=5
 
 AllItems ==
        DvFamily(Chain, "d1", 1, 1, "n1") \cup DvFamily(Chain, "d2", 2, 2, "n2")
   \cup DvFamily(Chain, "d3", 3, 3, "n3")
-  \cup LunaticFamily(Chain, "l1", 4, 1, 2) \cup EquivFamily(Chain, "e2", 5, 2)
+  \cup LunaticFamily(Chain, "l3", 4, 3, 4) \cup EquivFamily(Chain, "e3", 5, 3)
 
 AllFn  == ToFn(AllItems)
 IsLca(id) == AllFn[id].wsize = 1 /\ "cvals" \in DOMAIN AllFn[id]
@@ -30,24 +33,24 @@ AllPairs == [q1 |-> Pair(Chain, "d1", 1, "n1"), q2 |-> Pair(Chain, "d2", 2, "n2"
 
 CaseCtx == Chain @@ [dv |-> DvFn, lca |-> LcaFn, pairs |-> AllPairs]
 
-PoolDv  == {"d1genuine", "d2genuine", "d3genuine", "d2power"}
-PoolLca == {"l1genuine", "l1fewer"}
+PoolDv  == {"d2genuine", "d3genuine"}
+PoolLca == {"l3genuine", "l3fewer", "e3genuine"}
 PoolCtx == Chain @@ [dv |-> Restrict(DvFn, PoolDv), lca |-> Restrict(LcaFn, PoolLca),
                      pairs |-> Restrict(AllPairs, {"q2", "q3"})]
 PoolIds == PoolDv \cup PoolLca
-PoolBegin == {"d2genuine", "d3genuine", "l1genuine"}
+PoolBegin == {"d2genuine"}
 
 \* quick tier: five items
 QuickDv  == {"d2genuine", "d3genuine"}
-QuickLca == {"l1genuine", "l1fewer"}
+QuickLca == {"l3genuine", "l3fewer"}
 QuickCtx == Chain @@ [dv |-> Restrict(DvFn, QuickDv), lca |-> Restrict(LcaFn, QuickLca),
                       pairs |-> Restrict(AllPairs, {"q3"})]
 QuickIds == QuickDv \cup QuickLca
-QuickBegin == {"d2genuine", "l1genuine"}
+QuickBegin == {"d2genuine"}
 
 \* smaller alphabet for the act-augmented replay graph (no VIEW)
 GraphDv  == {"d2genuine", "d3genuine"}
-GraphLca == {"l1genuine", "l1fewer"}
+GraphLca == {"l3genuine", "l3fewer"}
 GraphCtx == Chain @@ [dv |-> Restrict(DvFn, GraphDv), lca |-> Restrict(LcaFn, GraphLca),
                       pairs |-> Restrict(AllPairs, {"q3"})]
 GraphIds == GraphDv \cup GraphLca
